@@ -367,6 +367,30 @@ PROPS['C20'] = dict(
                "abstraction; crypto/tls, x509. Axioms: none.",
 )
 
+BRANCH_NAMES['cost'] = ['measurements', 'inputs-of-100kB-or-more']
+PROPS['C19'] = dict(
+    level='other',
+    projections=[dict(name='cost', spec_index=1, n_quick=1, n_thorough=1, timeout=1500)],
+    rule="cost: fixed adversarial families measured on one goroutine after a GC (allocated bytes from runtime.MemStats, wall time, the better of "
+         "two samples when slow): observations holding one timestamped value nested 1..3000 deep (thorough 12000) through ValidateObservation; "
+         "10 / 1000 / 10000 / 10001 stream values; 5 definitions of 10..3000 streams with zero aggregators (B9) and with valid ones; 1 kB..1 MiB of "
+         "random bytes; 5..300000 distinct channel ids to remove; 1..2000 channels sharing one mode-aggregated stream with 100 kB values; decimals with 100 B..100 kB coefficients through Outcome, Reports and the JSON codec; 3 observations x up to 3000 "
+         "streams through Outcome and Reports; up to 3000 unencodable values through the ABI-encode-unpacked codec; decimals of scale +-40 and "
+         "the F2 witnesses (scale -4000000 in a median, +4000000 in the EVM codec). Bound checked per case: 8 MiB + 256 B per input byte "
+         "allocated, 1 s + 2 us per input byte. All cases are distinct by construction; none is trivial.",
+    explanation="Theorems C19_* are about cost MODELS: the repaired nested-value decoder copies at most 4x the input at any depth while the "
+                "pinned one is quadratic (refutation = D7), validation visits each vote and value once, and one decimal comparison materialises "
+                "a number of digits that no function of the input size bounds (refutation = known finding F2). Whether the code meets a fixed "
+                "cost per input byte is decided by measurement on adversarial families, with the allocation count as the noise-free signal. "
+                "The measurement found a genuine defect (B9, nested errors.Join, 37 s for a 250 kB observation), repaired by a fix: commit.",
+    assumptions=["the Go allocator's TotalAlloc is a faithful proxy for bytes copied", "measurements run on an otherwise idle core"],
+    level_text="PARTIAL. Coq theorems hold for cost models of the decoder, validation and decimal comparison (linear bound, quadratic and "
+               "unbounded refutations); the code itself is measured (allocated bytes and time per input byte on adversarial input families), "
+               "not proved: a machine-checked proof cannot exhibit CPU time or allocator behaviour.",
+    level_note="Technique: Coq proof about cost models + measurement harness. Trusted: Coq kernel; that the cost models describe the code "
+               "(checked only by measurement); runtime.MemStats. Axioms: none.",
+)
+
 
 def load_known_findings(root):
     p = os.path.join(root, 'known_findings.jsonl')
